@@ -388,6 +388,14 @@ Deliver(tx) ==
        /\ act' = [name |-> "Deliver", tx |-> tx, result |-> o.result, failIdx |-> o.failIdx, code |-> o.code, offs |-> o.offs]
     /\ UNCHANGED <<height, phase, supply, rest>>
 
+\* The very same transaction BYTES delivered again (any later point, same or later block). If the first delivery got past the ante
+\* handler, the signers' account sequences have moved on: the copy dies in the ante handler (sdk/32) and changes nothing.
+\* `e` is the record of the earlier delivery: [tx, passed]. (Account sequences themselves are managed by the harness, not modelled.)
+Redeliver(e, k) ==
+    /\ phase = "in" /\ e.passed
+    /\ act' = [name |-> "Redeliver", k |-> k, tx |-> e.tx, result |-> "ante", failIdx |-> 0, code |-> "sdk/32", offs |-> <<>>]
+    /\ UNCHANGED <<height, phase, custom, bank, grants>>
+
 \* x/burn EndBlock: everything spendable at the burn address goes to the burn module account and is burned there.
 BurnAmt(d) == SpendableAt(CS, BurnAcct, d, height)
 
